@@ -37,7 +37,7 @@ func contractTags(fc *FuncContract) []string {
 
 func newExec(p *Prog, name string) *Exec {
 	e := &Exec{P: p, S: newScript(), name: name, notes: map[string]bool{}, unsup: map[string]bool{}, arrSort: map[string]string{},
-		callSeen: map[string]int{}, closures: map[string]closureInfo{}, usedLemmas: map[string]bool{}, measures: map[int]string{}, prov: map[string]string{}, specCache: map[string]Val{}, siteVars: map[string]Val{}, opaqueSig: map[string]string{}, specCache2: map[string][]specEntry{}, ldCache: map[string]string{}}
+		callSeen: map[string]int{}, closures: map[string]closureInfo{}, usedLemmas: map[string]bool{}, measures: map[int]string{}, prov: map[string]string{}, specCache: map[string]Val{}, siteVars: map[string]Val{}, forallVars: map[string]Val{}, opaqueSig: map[string]string{}, specCache2: map[string][]specEntry{}, ldCache: map[string]string{}}
 	e.S.DeclareFun("typeof", []string{"Int"}, "Int")
 	e.S.Assert(sEq(sx("typeof", "0"), "0"))
 	e.S.Declare("A0", "Int")
@@ -101,6 +101,10 @@ func verifyFunc(p *Prog, fn *ssa.Function, fc *FuncContract, cover bool) (e *Exe
 		fr.vals[fv] = v
 		fr.fvals = append(fr.fvals, v)
 		e.inputs = append(e.inputs, v.t())
+	}
+	for _, q := range fc.Forall {
+		k, t := e.specType(fc.PkgPath, q.Type)
+		e.forallVars[q.Name] = e.freshVal("all_"+q.Name, t, k)
 	}
 	fr.entry = st.clone()
 	env := e.funcEnv(fr, st)
